@@ -7,7 +7,7 @@ use bridge::{catch, CMode, CPat, Cfg};
 use refsem::evidence::{Run, Samples, Tier, ViolAcc, Violation};
 use refsem::model::ScanTable;
 use refsem::par::par_for;
-use scnr::{FindMatches, Scanner, ScannerModeSwitcher};
+use scnr::{FindMatches, PositionProvider, Scanner, ScannerModeSwitcher};
 use serde_json::{json, Map};
 use std::collections::{BTreeSet, HashMap};
 
@@ -120,6 +120,11 @@ fn cfgs() -> Vec<Cfg> {
                 CMode { name: "DIGITS".into(), pats: vec![CPat::new("[0-9]+", 1)], transitions: vec![] },
             ],
         },
+        // line feeds as tokens, characters nothing matches behind them (positions are observed)
+        // (a second mode that is only reached by set_mode(1))
+        Cfg { modes: vec![CMode { name: "LINES".into(), pats: vec![CPat::new("\\n", 0), CPat::new("[a-z]+", 1)], transitions: vec![] }, CMode { name: "X".into(), pats: vec![CPat::new("[a-z]", 2)], transitions: vec![] }] },
+        // a lookahead candidate that ends exactly at the end of the input
+        Cfg { modes: vec![CMode { name: "LA".into(), pats: vec![la("a", 0, true, "b"), CPat::new("[a-z]", 1)], transitions: vec![] }, CMode { name: "X".into(), pats: vec![CPat::new("[a-z]+", 2)], transitions: vec![] }] },
     ]
 }
 
@@ -144,7 +149,7 @@ pub fn run(tier: Tier) -> ! {
     let mut run = Run::new("C12", tier);
     let max_len = if tier == Tier::Quick { 2 } else { 3 };
     let all_scripts = scripts(max_len);
-    let inputs = [("abxab", "bbaxb"), ("xab", "axxb"), ("12 34", "ab 12")];
+    let inputs = [("abxab", "bbaxb"), ("xab", "axxb"), ("12 34", "ab 12"), ("ab\nc #\nd", "\n#a\n"), ("acabca", "ba")];
     let mut total = Acc { samples: Samples::new(6), ..Default::default() };
     let mut fams = vec![];
     for (ci, cfg) in cfgs().into_iter().enumerate() {
@@ -288,7 +293,7 @@ pub fn run(tier: Tier) -> ! {
             SetMode(usize),
             SetOffset(usize),
         }
-        let alpha = [P::Next, P::Peek(1), P::Peek(2), P::SetMode(0), P::SetMode(1), P::SetOffset(0), P::SetOffset(1)];
+        let alpha_all = [P::Next, P::Peek(1), P::Peek(2), P::Peek(100), P::SetMode(0), P::SetMode(1), P::SetOffset(0), P::SetOffset(1)];
         let depth = if tier == Tier::Quick { 4 } else { 5 };
         let run_script = |sc: &Scanner, input: &str, s: &[P]| -> Result<Vec<String>, String> {
             catch(|| {
@@ -296,7 +301,12 @@ pub fn run(tier: Tier) -> ! {
                 let mut obs = vec![];
                 for o in s {
                     match o {
-                        P::Next => obs.push(format!("{:?}|m{}", it.next().map(|m| (m.token_type(), m.start(), m.end())), it.current_mode())),
+                        P::Next => {
+                            // the token, the mode after it and where the iterator says the token lies
+                            let m = it.next();
+                            let pos = m.as_ref().map(|m| (it.position(m.start()), it.position(m.end())));
+                            obs.push(format!("{:?}|m{}|{:?}", m.map(|m| (m.token_type(), m.start(), m.end())), it.current_mode(), pos));
+                        }
                         P::Peek(n) => {
                             let _ = it.peek_n(*n);
                         }
@@ -312,7 +322,9 @@ pub fn run(tier: Tier) -> ! {
                 }
                 // drain
                 for _ in 0..input.len() + 1 {
-                    obs.push(format!("{:?}", it.next().map(|m| (m.token_type(), m.start(), m.end()))));
+                    let m = it.next();
+                    let pos = m.as_ref().map(|m| (it.position(m.start()), it.position(m.end())));
+                    obs.push(format!("{:?}|{:?}", m.map(|m| (m.token_type(), m.start(), m.end())), pos));
                 }
                 obs
             })
@@ -320,6 +332,8 @@ pub fn run(tier: Tier) -> ! {
         let mut n_scripts = 0usize;
         for (ci, cfg) in cfgs().into_iter().enumerate() {
             let sc = cfg.build_uncached().unwrap();
+            // set_mode only to modes the configuration has
+            let alpha: Vec<P> = alpha_all.iter().copied().filter(|o| !matches!(o, P::SetMode(m) if *m >= cfg.modes.len())).collect();
             for input in [inputs[ci].0, inputs[ci].1] {
                 let total_n: usize = (0..=depth).map(|l| alpha.len().pow(l as u32)).sum();
                 let accs = par_for(total_n, 256, Acc::default, |acc, mut k| {
@@ -357,7 +371,7 @@ pub fn run(tier: Tier) -> ! {
                 }
             }
         }
-        fams.push(json!({"family": format!("peek transparency on one iterator: every script of <= {depth} operations from next / peek_n(1) / peek_n(2) / set_mode(0|1) / set_offset(0|1) that contains a peek, compared with the same script without its peeks"), "scripts_with_peeks": n_scripts, "exhaustive": true}));
+        fams.push(json!({"family": format!("peek transparency on one iterator: every script of <= {depth} operations from next / peek_n(1) / peek_n(2) / peek_n(100) / set_mode(0|1) / set_offset(0|1) that contains a peek, compared with the same script without its peeks; observed: tokens, modes and position() of both ends of every token"), "scripts_with_peeks": n_scripts, "exhaustive": true}));
     }
 
     // reuse of one scanner for many inputs, with partially consumed iterators in between
